@@ -28,6 +28,7 @@ from asl.loader import norm, own_nodes
 from asl.values import USERISH, atoms_deep
 from . import c01, c04, c09
 from .c05 import pull_nodes
+from .common import real_units
 
 LEVEL = {
     "decided": "C20 (necessary clauses): (R20.1) no container that outlives an iteration of a source-pulling loop grows "
@@ -70,6 +71,7 @@ def run(ctx) -> None:
     r20_3(ctx)
     r20_5(ctx)
     r20_6(ctx)
+    r20_7(ctx)
     ctx.floor("streaming_units", 20)
     ctx.floor("pull_loops", 15)
     ctx.floor("windows_checked", 3)
@@ -82,6 +84,60 @@ ADAPTERS = ["_core.aiter", "_core._aiter_sync", "_core.borrow", "_core.ScopedIte
 
 
 HANDLE_CLASSES = ["itertools._GroupByState", "itertools._Grouper", "itertools.GroupBy", "itertools.chain"]
+
+
+def _is_exception_instance(ctx, mod, e) -> bool:
+    if not isinstance(e, ast.Call):
+        return False
+    r = ctx.pkg.resolve_expr_global(mod, e.func)
+    name = (r.qual if r.kind in ("builtin", "stdlib", "lib") else norm(e.func)).split(".")[-1]
+    return name.endswith(("Error", "Exception", "Iteration", "Exit", "Interrupt", "Warning")) or name == "CancelledError"
+
+
+def r20_7(ctx) -> None:
+    """Every time an exception *instance* is raised, CPython prepends the raising frame to its
+    ``__traceback__``; the frames (and the locals they hold: items, keys, groups) stay reachable
+    for as long as the instance does.  An instance kept on a handle, a class or a module and raised
+    again and again therefore retains one frame per raise — unbounded in the length of the input.
+    Raised objects must be fresh (a class, a call) or the exception currently being handled."""
+    ctx.rule("R20.7", "no exception instance stored on an object, class or module is raised (a re-raised instance accumulates a traceback "
+                      "entry, and the frame it pins, per raise)")
+    stored_attrs, stored_globals = {}, {}
+    for u in real_units(ctx):
+        for st in own_nodes(u.node):
+            if isinstance(st, (ast.Assign, ast.AnnAssign)) and st.value is not None and _is_exception_instance(ctx, u.module, st.value):
+                for t in (st.targets if isinstance(st, ast.Assign) else [st.target]):
+                    if isinstance(t, ast.Attribute):
+                        stored_attrs[t.attr] = (u, st)
+    for mod in ctx.pkg.modules.values():
+        for info in mod.classes.values():
+            for st in info.node.body:
+                if isinstance(st, (ast.Assign, ast.AnnAssign)) and st.value is not None and _is_exception_instance(ctx, mod, st.value):
+                    for t in (st.targets if isinstance(st, ast.Assign) else [st.target]):
+                        if isinstance(t, ast.Name):
+                            stored_attrs[t.id] = (None, st)
+        for st in mod.tree.body:
+            if isinstance(st, (ast.Assign, ast.AnnAssign)) and st.value is not None and _is_exception_instance(ctx, mod, st.value):
+                for t in (st.targets if isinstance(st, ast.Assign) else [st.target]):
+                    if isinstance(t, ast.Name):
+                        stored_globals[(mod.short, t.id)] = st
+    for u in real_units(ctx):
+        handler_names = {h.name for h in own_nodes(u.node) if isinstance(h, ast.ExceptHandler) and h.name}
+        local_names = {x.id for x in own_nodes(u.node) if isinstance(x, ast.Name) and isinstance(x.ctx, ast.Store)} | set(u.param_names())
+        for r in own_nodes(u.node):
+            if not isinstance(r, ast.Raise) or r.exc is None:
+                continue
+            ctx.count("raise_sites")
+            e = r.exc
+            bad = None
+            if isinstance(e, ast.Attribute) and e.attr in stored_attrs:
+                bad = f"`{norm(e)}` is an exception instance stored by `{norm(stored_attrs[e.attr][1]).splitlines()[0]}`"
+            elif isinstance(e, ast.Name) and e.id not in handler_names and e.id not in local_names and (u.module.short, e.id) in stored_globals:
+                bad = f"`{e.id}` is a module-level exception instance"
+            if bad:
+                ctx.fail("R20.7", u, r, f"{bad}: raising it again and again chains one traceback entry (and the frame with its "
+                         "locals) per raise onto the same object", line=r.lineno)
+    ctx.ok("R20.7", "package", "raised objects are classes, fresh instances or the exception being handled")
 
 
 def r20_6(ctx) -> None:
@@ -130,8 +186,14 @@ def r20_5(ctx) -> None:
     from asl.values import roles_of_annotation
     ctx.rule("R20.5", "no streaming tool or iteration adapter hands a source iterable to a materialising builtin "
                       "(tuple, list, sorted, set, dict, deque, ...)")
-    for short in STREAMING + ADAPTERS:
-        if short in ACCUMULATORS or not ctx.pkg.has_unit(short):
+    units = [s for s in STREAMING + ADAPTERS if ctx.pkg.has_unit(s)]
+    # ... and every other function that is handed an iterable (public wrappers such as nlargest/min/max)
+    for x in real_units(ctx):
+        if x.parent is None and not x.is_overload() and x.short not in units and any(
+                "ITERABLE" in roles_of_annotation(p.annotation) for p in x.params()):
+            units.append(x.short)
+    for short in units:
+        if short in ACCUMULATORS or ctx.pkg.canonical(ctx.unit(short)) in ACCUMULATORS:
             continue
         u = ctx.inlined(ctx.unit(short))
         cfg = cfg_of(u)
@@ -142,7 +204,12 @@ def r20_5(ctx) -> None:
                 continue
             r = ctx.pkg.resolve_expr_global(u.module, n.ast.func)
             name = r.qual.split(".")[-1] if r.kind in ("builtin", "stdlib") else ""
-            if name not in MATERIALISERS or (r.kind == "stdlib" and not r.qual.startswith(("builtins.", "collections."))):
+            lib_acc = None
+            if r.kind == "lib":
+                t = ctx.pkg.lib_unit(r.qual)
+                if t is not None and ctx.pkg.canonical(t) in ACCUMULATORS and ctx.pkg.canonical(t) != "itertools.cycle":
+                    lib_acc = t  # the library's own collecting functions keep every item as well
+            if lib_acc is None and (name not in MATERIALISERS or (r.kind == "stdlib" and not r.qual.startswith(("builtins.", "collections.")))):
                 continue
             for a in n.ast.args[:1]:
                 if isinstance(a, ast.Starred):
